@@ -524,6 +524,38 @@ def add_many_of_the_same(doc: Dict[str, Any], rnd: random.Random) -> str:
 SAFE_EDITS += [modify_existing, modify_existing, modify_existing, add_many_of_the_same]
 
 
+def _and_parts(doc: Dict[str, Any], rnd: random.Random, tag: str) -> List[Dict[str, Any]]:
+    """2-3 structures to be joined by an `and` type; they SHARE some property names (declared differently),
+    so whoever flattens them has to decide an order and a winner."""
+    shared = rnd.sample(NAME_POOL, rnd.randint(2, 4))
+    parts = []
+    for i in range(rnd.randint(2, 3)):
+        nm = f"SimAndPart{i}x{tag}"
+        props = [{"name": n, "type": _b(rnd.choice(["string", "uinteger", "boolean"])), **({"optional": True} if rnd.random() < 0.5 else {})} for n in shared if rnd.random() < 0.85]
+        props += [{"name": f"only{i}{tag}", "type": _b("string")}]
+        rnd.shuffle(props)
+        doc["structures"].append({"name": nm, "properties": props})
+        parts.append(_r(nm))
+    return parts
+
+
+def add_and_registration_options(doc: Dict[str, Any], rnd: random.Random) -> str:
+    """Intersection type as registrationOptions of a request (accepted by all four plugins)."""
+    tag = _fresh(rnd, "")
+    parts = _and_parts(doc, rnd, tag)
+    structs = [s["name"] for s in doc["structures"]]
+    doc["requests"].append({"method": f"sim/andreg{tag}", "typeName": f"SimAndReg{tag}Request", "messageDirection": "both", "params": _r(rnd.choice(structs)),
+                            "result": _b("null"), "registrationOptions": {"kind": "and", "items": parts}, "registrationMethod": f"sim/andreg{tag}/register"})
+    return "add_and_registration_options"
+
+
+def add_and_notification_params(doc: Dict[str, Any], rnd: random.Random) -> str:
+    """Intersection type as params of a notification (python and testdata accept it)."""
+    tag = _fresh(rnd, "")
+    doc["notifications"].append({"method": f"sim/andn{tag}", "typeName": f"SimAndN{tag}Notification", "messageDirection": "both", "params": {"kind": "and", "items": _and_parts(doc, rnd, tag)}})
+    return "add_and_notification_params"
+
+
 def add_and_message(doc: Dict[str, Any], rnd: random.Random) -> str:
     """Intersection types in message positions.  Only the testdata plugin accepts `and` types on the
     pinned tree (python/rust/dotnet raise), so this edit is offered to testdata histories only."""
@@ -551,8 +583,11 @@ def add_regexp_union(doc: Dict[str, Any], rnd: random.Random) -> str:
     return "add_regexp_union"
 
 
+SAFE_EDITS += [add_and_registration_options, add_and_registration_options]
+
 PLUGIN_EDITS: Dict[str, List[Callable[[Dict[str, Any], random.Random], str]]] = {
-    "testdata": [add_and_message, add_and_message, add_and_message, add_regexp_union],
+    "python": [add_and_notification_params, add_and_notification_params],
+    "testdata": [add_and_message, add_and_message, add_and_message, add_regexp_union, add_and_notification_params],
     "dotnet": [add_regexp_union, add_regexp_union],
     "rust": [add_regexp_union, add_regexp_union],
 }
